@@ -160,4 +160,10 @@ func init() {
 		{"complementdense-index-not-advanced", "graph/transformation.go", "\t\t\tif !g.IsEdge(i, j) {\n\t\t\t\tedges[index] = 1\n\t\t\t}\n\t\t\tindex++", "\t\t\tif !g.IsEdge(i, j) {\n\t\t\t\tedges[index] = 1\n\t\t\t\tindex++\n\t\t\t}", "TRI:graph.ComplementDense"},
 		{"star-centre-column-shifted", "graph/generating.go", "\tfor i := 1; i < n; i++ {\n\t\tedges[(i*(i-1))/2] = 1\n\t}", "\tfor i := 1; i < n; i++ {\n\t\tedges[(i*(i-1))/2+1] = 1\n\t}", "TRI:graph.Star"},
 	}
+	mutants["C09"] = []mutant{
+		{"chromatic-index-n-zero", "graph/colouring.go", "\tn := g.N()\n\tcolouringIndex := 0", "\tn := 0\n\tcolouringIndex := 0", "LIVE:graph.ChromaticIndex"},
+		{"chromatic-index-dead-loop", "graph/colouring.go", "\tindex := 0\n\tfor j := 1; j < n; j++ {\n\t\tfor i := 0; i < j; i++ {\n\t\t\tif g.IsEdge(i, j) {\n\t\t\t\tcolouredEdges[index]", "\tindex := 0\n\tfor j := 1; j < 1; j++ {\n\t\tfor i := 0; i < j; i++ {\n\t\t\tif g.IsEdge(i, j) {\n\t\t\t\tcolouredEdges[index]", "LIVE:graph.ChromaticIndex"},
+		{"greedy-colour-table-empty", "graph/colouring.go", "\tc := make([]int, n)\n\tfor i := range c {\n\t\tc[i] = -1\n\t}\n\tseenColours", "\tc := make([]int, n-n)\n\tfor i := range c {\n\t\tc[i] = -1\n\t}\n\tseenColours", "LIVE:graph.GreedyColor"},
+		{"chromatic-index-caches-in-graph", "graph/colouring.go", "\th := LineGraphDense(g)\n\tci, colouring := ChromaticNumber(h)", "\th := LineGraphDense(g)\n\tif dg, ok := g.(*DenseGraph); ok && dg.NumberOfEdges < 0 {\n\t\tdg.NumberOfEdges = 0\n\t}\n\tci, colouring := ChromaticNumber(h)", "READONLY:graph.ChromaticIndex"},
+	}
 }
